@@ -1,6 +1,7 @@
 import Bxh.Props.C13
 import Bxh.Proofs.LedgerRevert
 import Bxh.Proofs.LedgerFlush
+import Bxh.Proofs.LedgerQuery
 /-!
 # C13 — snapshots: "Reverting to a snapshot restores every journaled value to what it was at snapshot time, and nested snapshots
 revert independently" — and, with `getState_peek` / `peekState_setState`, the read-your-write clause for EVERY key and account
@@ -144,5 +145,99 @@ example :
   · intro r hr; cases hr
   · decide
   · decide
+
+-- ------------------------------------------------------------------------------------ prefix queries
+
+/-- **a prefix query returns exactly the values of the live keys with that prefix**: the result of `QueryByPrefix` is (a
+reordering of) the values of a finite map that has no key twice and that holds a key `k` iff `k` starts with the prefix and
+`GetState` answers a present (non-empty) value for it — and then holds exactly that answer.  For every ledger state whose account
+objects are coherent with the layers below them (`ObjCoh`) and whose cache and database are maps (`StoreWf`): both are
+established by an empty / reopened ledger and kept by writes, flushes and commits (`ObjCoh.writes`, `StoreWf.writes`,
+`StoreWf.flush`, `StoreWf.commit`, `StoreWf.reopen`); the value may live in the block's dirty set, in the account cache or in the
+database, and a key deleted or emptied in any of the layers is not listed even though a lower layer still holds a value -/
+theorem C13_query_lists_exactly_the_live_keys (l : L) (a : Addr) (pfx : String) (hC : ObjCoh l) (hW : StoreWf l) :
+    ∃ m : KV String Bytes, (m.map (·.1)).Nodup ∧ (query l a pfx).2.Perm (m.map (·.2)) ∧
+      ∀ k, KV.get m k =
+        if k.startsWith pfx = true ∧ present (getState l a k).2 = true then some (getState l a k).2 else none := by
+  obtain ⟨m, h1, h2, h3⟩ := query_exact l a pfx hC hW.db (hW.cache a)
+  refine ⟨m, h1, h2, fun k => ?_⟩
+  rw [h3 k, getState_peek]
+  unfold live
+  by_cases hp : k.startsWith pfx = true <;> by_cases hv : present (peekState l a k) = true <;> simp [hp, hv]
+
+/-- every listed value is the present value of a key with the prefix -/
+theorem C13_query_sound (l : L) (a : Addr) (pfx : String) (hC : ObjCoh l) (hW : StoreWf l) (v : Bytes)
+    (hv : v ∈ (query l a pfx).2) :
+    ∃ k, k.startsWith pfx = true ∧ (getState l a k).2 = v ∧ present v = true := by
+  obtain ⟨m, h1, h2, h3⟩ := C13_query_lists_exactly_the_live_keys l a pfx hC hW
+  obtain ⟨p, hp, e⟩ := List.mem_map.mp (h2.mem_iff.mp hv)
+  have hsome : ∃ w, KV.get m p.1 = some w := by
+    cases hg : KV.get m p.1 with
+    | some w => exact ⟨w, rfl⟩
+    | none => exact absurd rfl (KV.not_mem_of_get_none hg p hp)
+  obtain ⟨w, hw⟩ := hsome
+  have hvw : p.2 = w := KV.unique_of_nodup h1 (k := p.1) hp (KV.mem_of_get hw)
+  rw [h3 p.1] at hw
+  split at hw
+  · rename_i hc
+    injection hw with hw
+    refine ⟨p.1, hc.1, ?_, ?_⟩
+    · rw [hw, ← hvw, e]
+    · rw [← e, hvw, ← hw]; exact hc.2
+  · cases hw
+
+/-- every key with the prefix whose read is a present value is listed, with that value -/
+theorem C13_query_complete (l : L) (a : Addr) (pfx k : String) (hC : ObjCoh l) (hW : StoreWf l)
+    (hp : k.startsWith pfx = true) (hv : present (getState l a k).2 = true) :
+    (getState l a k).2 ∈ (query l a pfx).2 := by
+  obtain ⟨m, _, h2, h3⟩ := C13_query_lists_exactly_the_live_keys l a pfx hC hW
+  have hg : KV.get m k = some (getState l a k).2 := by rw [h3 k]; simp [hp, hv]
+  exact h2.mem_iff.mpr (List.mem_map.mpr ⟨_, KV.mem_of_get hg, rfl⟩)
+
+/-- the hypotheses are met in the middle of a block and after its flush: start on a ledger without account objects whose stores are
+maps (an empty or reopened ledger, the ledger after a flush), make any sequence of storage writes and deletes — the query is exact
+before the flush (from the dirty sets) and after it (from the account cache, before anything was committed) -/
+theorem C13_query_exact_in_and_after_a_block (H : RootPre → String) (l : L) (hno : l.accounts = []) (hW : StoreWf l) (ws : List SWrite) :
+    (ObjCoh (writes ws l) ∧ StoreWf (writes ws l)) ∧ (ObjCoh (flush H (writes ws l)).1 ∧ StoreWf (flush H (writes ws l)).1) :=
+  ⟨⟨(ObjCoh.of_no_objects l hno).writes ws, hW.writes ws⟩, ObjCoh.of_no_objects _ rfl, (hW.writes ws).flush H⟩
+
+/-- non-vacuity: a ledger that meets both hypotheses with every layer in play — a database value overridden in the block (`ka`), one
+deleted in the block (`kb`), one emptied in the account cache (`kc`), one only in the database (`kd`), one under another prefix, one
+of another account (`String.startsWith` does not reduce in the kernel, so the query itself is run by the model driver, not here) -/
+def exQ : L := { accounts := [(1, { dirtyState := [("ka", some "new"), ("kb", none)], originState := [("ka", some "old"), ("kb", some "gone")] })],
+                   cache := { state := [(1, [("kc", some "")])] },
+                   db := { state := [((1, "ka"), "old"), ((1, "kb"), "gone"), ((1, "kc"), "stale"), ((1, "kd"), "kept"), ((1, "x"), "other"), ((2, "ka"), "foreign")] } }
+example : StoreWf exQ ∧ ObjCoh exQ ∧ (getState exQ 1 "kc").2 = some "" ∧ (getState exQ 1 "kd").2 = some "kept" ∧ (getState exQ 1 "kb").2 = none := by
+  have hacc : ∀ a acc, KV.get exQ.accounts a = some acc → a = 1 ∧ acc = { dirtyState := [("ka", some "new"), ("kb", none)], originState := [("ka", some "old"), ("kb", some "gone")] } := by
+    intro a acc h
+    simp only [exQ, KV.get] at h
+    split at h
+    · rename_i e; cases h; exact ⟨e.symm, rfl⟩
+    · cases h
+  refine ⟨⟨by decide, ?_⟩, ⟨by decide, ?_, ?_, ?_⟩, by decide, by decide, by decide⟩
+  · intro a m h
+    simp only [exQ, KV.get] at h
+    split at h
+    · cases h; decide
+    · cases h
+  · intro a acc h k v hk
+    obtain ⟨rfl, rfl⟩ := hacc a acc h
+    simp only [KV.get] at hk
+    split at hk
+    · rename_i e; cases hk; subst e; decide
+    · split at hk
+      · rename_i e; cases hk; subst e; decide
+      · cases hk
+  · intro a acc h k hk
+    obtain ⟨rfl, rfl⟩ := hacc a acc h
+    simp only [KV.get] at hk ⊢
+    split
+    · rfl
+    · split
+      · rfl
+      · rename_i h1 h2; simp [h1, h2] at hk
+  · intro a acc h
+    obtain ⟨rfl, rfl⟩ := hacc a acc h
+    decide
 
 end Bxh.Props.C13
